@@ -38,6 +38,7 @@ class Check(BaseCheck):
         extract.gen_diffgeo()
         extract.gen_poisson()
         extract.gen_geo_glue()
+        extract.gen_dispatch()
 
     def problems(self, seed, n_tri, n_tet):
         rng = gen.rng_for(seed, "c08")
